@@ -580,7 +580,6 @@ func confirmViolations(d *Driver, viols []Violation) {
 		replayWorld = w
 	}
 	bin, err := buildRunner(replayWorld)
-	defer cleanupRunner()
 	dir := filepath.Join(verifDir(), "replays", d.Prop)
 	os.RemoveAll(dir)
 	os.MkdirAll(dir, 0o755)
